@@ -120,8 +120,12 @@ Theorem c04_checked_states_satisfy_invariant :
 Proof. exact checked_states_satisfy_invariant. Qed.
 Print Assumptions c04_checked_states_satisfy_invariant.
 
-(** ** Asset-parameter changes ([set_params] = the effect of Keeper.SetParams on the state; see
-    Htlc/ParamChange.v; model only — MsgUpdateParams is not part of the generated histories).
+(** ** Asset-parameter changes.  The model's operation [SetParams who P'] (MsgUpdateParams: accepted iff
+    [who] is the authority and [P'] passes the validation of types/params.go) applies [set_params]; the
+    correspondence check exercises it in a third of the generated histories, with valid and invalid
+    sets, limit cuts below the usage, period / flag / deputy / fee / bound changes.  The theorems over
+    histories ([wf_op]) and the property monitors are about histories WITHOUT parameter changes (the
+    monitors stop at the first one of a case); what survives a change is stated here (Htlc/ParamChange.v).
     inv_C04_after_param_change: whatever the new values (limits, time-based limit, period, active flag,
     deputy, fixed fee, swap bounds, lock bounds), as long as the supported denoms stay the same, the
     counters still equal the sums, escrow still equals the open contracts, bank supply = current,
